@@ -45,7 +45,7 @@ SUBSETS = ['full', 'prefix', 'stride', 'random']
 
 
 def plan(tier):
-    m = 4 if tier == 'quick' else 40
+    m = 4 if tier == 'quick' else 600
     p = []
     for fn in ('reweight', 'reweight_all', 'obs_method', 'corr_reweight', 'list'):
         for sub in SUBSETS:
